@@ -639,8 +639,9 @@ theorem registerLocalDeps_mem (m : Module) (ls : LoopState) (l : List String) (h
 /-- the parts of a successful custom build -/
 theorem customBuildStep_spec {ev flat m srcdir sources combined cb} {ls ls' : LoopState}
     (h : customBuildStep ev flat m srcdir sources combined cb ls = .ok ls') :
-    ∃ cmd srcs outs,
-      unwrapX "generate.rs:custom build cmd" (expandEvalS ev flat .empty (" && ".intercalate cb.cmd)) = .ok cmd ∧
+    ∃ cmd0 cmd srcs outs,
+      unwrapX "generate.rs:custom build cmd" (expandEvalS ev flat .empty (" && ".intercalate (cb.cmd.map trimLineEnd))) = .ok cmd0 ∧
+      customCmd cb cmd0 = .ok cmd ∧
       sources.mapM (customSource ev flat srcdir) = .ok srcs ∧
       (cb.out.getD []).mapM (customOut ev flat) = .ok outs ∧
       ls' = { ls with files := ls.files.extend m.name [outsAlias outs],
@@ -656,9 +657,11 @@ theorem customBuildStep_spec {ev flat m srcdir sources combined cb} {ls ls' : Lo
     · cases h
     · split at h
       · cases h
-      · rename_i _ cmd hcmd _ srcs hsrcs _ outs houts
-        cases h
-        exact ⟨cmd, srcs, outs, hcmd, hsrcs, houts, rfl⟩
+      · split at h
+        · cases h
+        · rename_i _ cmd0 hcmd0 _ cmd hcmd _ srcs hsrcs _ outs houts
+          cases h
+          exact ⟨cmd0, cmd, srcs, outs, hcmd0, hcmd, hsrcs, houts, rfl⟩
 
 /-- **C19.4b** a custom-build module registers the alias of its outputs under its name, emits the
     alias statement (`build outs_<hash>: phony <outs>`), and its build statement lists `combined` as
@@ -670,7 +673,7 @@ theorem customBuildStep_registers {ev flat m srcdir sources combined cb} {ls ls'
       ninjaAliasMultiple outs (outsAlias outs) ∈ ls'.entries ∧
       (buildFromRule (customRule cb cmd) (some srcs) (pathSort outs) combined).render ∈ ls'.entries ∧
       ls.entries ⊆ ls'.entries := by
-  obtain ⟨cmd, srcs, outs, _, _, houts, rfl⟩ := customBuildStep_spec h
+  obtain ⟨_, cmd, srcs, outs, _, _, _, houts, rfl⟩ := customBuildStep_spec h
   refine ⟨cmd, srcs, outs, houts, ?_, FilesLe.extend _ _ _, ?_, ?_, ?_⟩
   · exact (FileTable.mem_extend_self _ _ _ _).2 (Or.inr List.mem_cons_self)
   · exact (mem_addEntries _ _ _).2 (Or.inr (by simp [customStmts]))
